@@ -181,15 +181,21 @@ def oids (h : History) : List Nat := h.flatMap fun t => t.recs.map (·.oid)
 /-- smallest known oid `≥ k` (`index.minKey(k)`) -/
 def nextOid (h : History) (k : Nat) : Option Nat := ((oids h).filter fun o => k ≤ o).min?
 
-/-- `record_iternext(next)`: the smallest known oid `≥ next`, its current bytes and tid, and the
-    following known oid. -/
+/-- smallest oid `≥ k` of an object that currently EXISTS (its newest revision has bytes) -/
+def nextExisting (h : History) (k : Nat) : Option Nat :=
+  ((oids h).filter fun o => decide (k ≤ o) && (match load h o with | .ok _ => true | .error _ => false)).min?
+
+/-- `record_iternext(next)` (IStorageCurrentRecordIteration: "iterate over the CURRENT records"): the
+    smallest oid `≥ next` of an object that currently exists, its current bytes and tid, and the next
+    such oid.  An object whose newest revision is a deletion / an undone creation has no current
+    record and is skipped. -/
 def recordIterNext (h : History) (next : Nat) : Except Err (Nat × Nat × Bytes × Option Nat) :=
-  match nextOid h next with
+  match nextExisting h next with
   | none => .error .valueError
   | some oid =>
     match load h oid with
     | .error e => .error e
-    | .ok (d, tid) => .ok (oid, tid, d, nextOid h (oid + 1))
+    | .ok (d, tid) => .ok (oid, tid, d, nextExisting h (oid + 1))
 
 /-- the snapshot "before b": what `loadBefore(·, b)` shows of each object -/
 def stateAt (h : History) (b oid : Nat) : Option (Bytes × Nat) :=
